@@ -62,7 +62,8 @@ Record WFw (s : st) : Prop := {
   w_simm : k_reg s = true -> shape_imm (sess s) = true -> k_imm s = true;
   w_acc : AccT (p_has s) (p_id s) (next s) (closed s);
   w_scan : scan (trace s) = (if p_has s then Some (p_id s, p_txn s) else None);
-  w_flags : flags_ok (trace s) = true
+  w_flags : flags_ok (trace s) = true;
+  w_idle : k_has s = false -> p_has s = true -> p_txn s = false     (* a connection nobody holds has no open transaction *)
 }.
 Record WF (s : st) : Prop := {
   wf_w : WFw s;
@@ -100,3 +101,73 @@ Definition Postw (s : st) (rs : res * st) : Prop :=
 
 Lemma WF_WFw : forall s, WF s -> WFw s.
 Proof. intros s H. apply H. Qed.
+
+(* ---- tactics for the symbolic-execution proofs ---- *)
+Ltac simp_hyps :=
+  repeat match goal with
+  | H : true = true -> _ |- _ => specialize (H eq_refl)
+  | H : false = true -> _ |- _ => clear H
+  | H : true = false -> _ |- _ => clear H
+  | H : 0 < 0 -> _ |- _ => clear H
+  | H : _ /\ _ |- _ => destruct H
+  | H : true = false |- _ => discriminate H
+  | H : false = true |- _ => discriminate H
+  | H : ?x = ?x |- _ => clear H
+  | H : ?x = ?x -> _ |- _ => specialize (H eq_refl)
+  | H : ?x = [] |- _ => is_var x; subst x
+  | H : ?x = 0 |- _ => is_var x; subst x
+  | H : ?x = true |- _ => is_var x; subst x
+  | H : ?x = false |- _ => is_var x; subst x
+  | H : true = ?x |- _ => is_var x; subst x
+  | H : false = ?x |- _ => is_var x; subst x
+  | H : ?x = ?y |- _ => is_var x; is_var y; subst x
+  end.
+
+Ltac norm := cbv beta iota zeta delta [set_lock set_mine set_p_has set_p_id set_p_fk set_p_cs set_p_txn set_out set_next set_closed set_sess set_k_reg set_k_has set_k_id
+  set_k_intxn set_k_imm set_k_fk set_k_pending set_k_forupd set_ncall set_trace set_bad
+  lock mine p_has p_id p_fk p_cs p_txn out next closed sess k_reg k_has k_id k_intxn k_imm k_fk k_pending k_forupd ncall trace bad
+  andb orb negb fst snd other] in *; rewrite ?Nat.eqb_refl in *.
+
+Ltac scan_tac :=
+  cbn [flags_ok scan scan_step txn_of e_call e_ok e_con e_txn];
+  repeat match goal with H : scan _ = _ |- _ => rewrite H end;
+  repeat match goal with H : flags_ok _ = _ |- _ => rewrite H end;
+  cbn [flags_ok scan scan_step txn_of e_call e_ok e_con e_txn eqb andb]; rewrite ?Nat.eqb_refl; try reflexivity.
+Ltac suffix_tac :=
+  repeat (apply suf_cons; [cbv; try reflexivity |]); try apply suf_refl.
+
+Ltac split_one :=
+  match goal with
+  | |- context [if ?b then _ else _] =>
+      lazymatch b with
+      | context [if _ then _ else _] => fail
+      | context [match _ with _ => _ end] => fail
+      | _ => destruct b eqn:?
+      end
+  end.
+
+Ltac unfold_all := unfold cache_close, cache_connect, prov_connect, pool_connect, set_transaction_mode, prov_release, prov_commit,
+  prov_rollback, prov_drop, pool_release, pool_drop, db_connect, db_close, dbcall, acquire, release_lock, try_except, try_finally, bind,
+  when, upd, assert_, raise, ret, log, add_bad, effect in *.
+
+Ltac wf_tac := constructor; [constructor|..]; norm; intros; simp_hyps; try reflexivity; try discriminate; auto;
+               eauto using AccT_drop, AccT_connect, AccT_pid.
+Ltac wfw_tac := constructor; norm; intros; simp_hyps; try reflexivity; try discriminate; auto;
+               eauto using AccT_drop, AccT_connect, AccT_pid.
+Ltac ext_tac := constructor; norm; intros; simp_hyps; try reflexivity; try lia; auto with datatypes.
+Ltac bool_crush :=
+  cbn [eqb andb orb negb] in *;
+  repeat match goal with
+  | sh : shape |- _ => destruct sh; cbn [shape_imm shape_ddl] in *
+  | b : bool |- _ => destruct b; cbn [eqb andb orb negb] in *; simp_hyps
+  end; try reflexivity; try discriminate; try lia; auto.
+Ltac finish := try reflexivity; try discriminate; try lia; auto; try scan_tac; try suffix_tac; try solve [bool_crush].
+
+Ltac destruct_st :=
+  intros [lock mine p_has p_id p_fk p_cs p_txn out next closed sess k_reg k_has k_id k_intxn k_imm k_fk k_pending k_forupd ncall trace bad].
+Ltac run := norm; simp_hyps; repeat (split_one; norm; simp_hyps).
+
+(* frame: what connect / set_transaction_mode / cursor+execute leave alone in the cache *)
+Definition KF (s s' : st) : Prop :=
+  k_reg s' = k_reg s /\ k_imm s' = k_imm s /\ k_pending s' = k_pending s /\ k_forupd s' = k_forupd s.
+
